@@ -532,21 +532,41 @@ func c15RunDisk(c *core.C, op c15Op, si int, srcMap map[string][]byte) {
 	if op.writer {
 		return
 	}
+	// directly on the disk bucket, and through a prefix-mapped view of it (the way the caches reach their
+	// files): put options and failures must pass through the combinator unchanged
+	c15RunDiskView(c, op, si, srcMap, false)
+	c15RunDiskView(c, op, si, srcMap, true)
+}
+
+func c15RunDiskView(c *core.C, op c15Op, si int, srcMap map[string][]byte, view bool) {
 	ctx := context.Background()
 	src, _ := storagemem.NewReadBucket(srcMap)
-	base := filepath.Join(c.Tmp, "c15disk")
+	root := filepath.Join(c.Tmp, "c15disk")
+	base := root
+	if view {
+		base = filepath.Join(root, "dst")
+	}
 	prov := storageos.NewProvider()
 	mk := func() (storage.ReadWriteBucket, string) {
-		os.RemoveAll(base)
+		os.RemoveAll(root)
 		os.MkdirAll(base, 0o755)
-		b, err := prov.NewReadWriteBucket(base)
+		var b storage.ReadWriteBucket
+		b, err := prov.NewReadWriteBucket(root)
 		if err != nil {
 			panic(err)
 		}
+		if view {
+			b = storage.MapReadWriteBucket(b, storage.MapOnPrefix("dst"))
+		}
 		return b, base
 	}
-	defer os.RemoveAll(base)
-	key := func(f string) string { return fmt.Sprintf("op=%s source=%d diskfault=%s", op.name, si, f) }
+	defer os.RemoveAll(root)
+	key := func(f string) string {
+		return fmt.Sprintf("op=%s source=%d diskfault=%s%s", op.name, si, f, map[bool]string{true: " view=mapped", false: ""}[view])
+	}
+	if view {
+		c.Count("disk_fault_cases_through_mapped_view", 1)
+	}
 	// dry run counts hook hits
 	verifhook.Reset()
 	dst, _ := mk()
@@ -585,7 +605,7 @@ func c15RunDisk(c *core.C, op c15Op, si int, srcMap map[string][]byte) {
 				c.Eval(1)
 				c.Count("disk_fault_runs", 1)
 				label := fmt.Sprintf("%s#%d short=%v", point, k, short)
-				c.Distinct("fault_positions", op.name+"/disk/"+label)
+				c.Distinct("fault_positions", op.name+"/disk/"+label+map[bool]string{true: "/mapped", false: ""}[view])
 				if fired > 0 {
 					c.Count("faults_fired", fired)
 					if err == nil {
@@ -649,7 +669,7 @@ func c15RunDisk(c *core.C, op c15Op, si int, srcMap map[string][]byte) {
 			break
 		}
 	}
-	c.Nontrivial(fmt.Sprintf("disk op=%s files=%d writes=%d closes=%d", op.name, len(srcMap), hits["os.write"], hits["os.close"]))
+	c.Nontrivial(fmt.Sprintf("disk op=%s files=%d writes=%d closes=%d view=%v", op.name, len(srcMap), hits["os.write"], hits["os.close"], view))
 }
 
 func listAll(dir string) []string {
